@@ -1,6 +1,10 @@
 import FgaVerif.Sexp
 import FgaVerif.Model.Validators
 import FgaVerif.Gen.Rules
+import FgaVerif.Codec
+import FgaVerif.Model.Printer
+import FgaVerif.Model.Clean
+import FgaVerif.Model.Listener
 /-! Line-protocol driver: one S-expression operation per input line, one canonical result per
     output line. Runs the executable model definitions only (no proofs are imported). -/
 namespace FgaVerif.Driver
@@ -20,10 +24,35 @@ def opValidate (name s : String) : String :=
     | none => "unmodelled"
     | some c => boolS (c.eval s.toList)
 
+def printErrS : Printer.PrintErr → String
+  | .nesting t r => s!"(err nesting {Sexp.quote t} {Sexp.quote r})"
+  | .condName k n => s!"(err cond-name {Sexp.quote k} {Sexp.quote n})"
+  | .paramGeneric p t => s!"(err param-generic {Sexp.quote p} {Sexp.quote t})"
+
+def opModel2Dsl (m : Sexp) (src : Bool) : String :=
+  match Codec.decModel m with
+  | none => "bad-op"
+  | some mdl =>
+    match Printer.transform mdl src with
+    | .ok s => s!"(ok {Sexp.quote s})"
+    | .error e => printErrS e
+
+def opDsl2Model (text cleaned : String) (tree errs : Sexp) : String :=
+  let lc := String.ofList (Clean.clean text.toList)
+  if lc != cleaned then s!"(clean-mismatch {Sexp.quote lc})"
+  else
+    match Codec.decTree tree, Codec.decErrs errs with
+    | some t, some es => toString (Codec.encOutcome (Listener.transform es t))
+    | _, _ => "bad-op"
+
 def step (line : String) : String :=
   match Sexp.parse line with
   | none => "bad-op"
   | some (.list [.atom "validate", .atom name, .str s]) => opValidate name s
+  | some (.list [.atom "model2dsl", m, .atom "true"]) => opModel2Dsl m true
+  | some (.list [.atom "model2dsl", m, .atom "false"]) => opModel2Dsl m false
+  | some (.list [.atom "dsl2model", .str text, .str cleaned, tree, errs]) => opDsl2Model text cleaned tree errs
+  | some (.list [.atom "clean", .str text]) => s!"(ok {Sexp.quote (String.ofList (Clean.clean text.toList))})"
   | some _ => "bad-op"
 
 partial def loop (h : IO.FS.Stream) (out : IO.FS.Stream) : IO Unit := do
